@@ -69,6 +69,14 @@ def generate(rng, tier):
             files[tgt] = files[lf]
             files[lf] = {"symlink": os.path.relpath(tgt, os.path.dirname(lf))}
             linked[lf] = tgt
+    # a source file with a second hard link: elsewhere, or -- a cheap manual backup -- as its own .bk sibling
+    if rng.chance(10) and leaves and not linked:
+        hf = rng.choice([f for f in leaves if f not in respelled] or leaves)
+        if hf not in respelled:
+            where = rng.choice(["elsewhere", "bk"])
+            lp = ("links/" + os.path.basename(hf)) if where == "elsewhere" else _stem(hf) + ".bk"
+            if lp not in files:
+                files[lp] = {"hardlink": hf}
     # line-ending / BOM variants: the original *bytes* must survive, not a normalised text
     for f in srcs:
         if f in linked:
@@ -93,7 +101,7 @@ def generate(rng, tier):
             if which in ("tmp", "both"):
                 leftovers[stem + ".tmp"] = "// stale tmp\n"
     files.update(leftovers)
-    history = rng.chance(20) and not linked
+    history = rng.chance(20) and not linked and not any(isinstance(x, dict) and "hardlink" in x for x in files.values())
     cwd, root_arg = rng.choice([(".", t.root), (t.base, os.path.relpath(t.root, t.base)), (".", "$ROOT/" + t.root)])
     extra_args = rng.choice([[], [], ["-q"], ["--config", "max_width=%d" % rng.choice([60, 80, 100])]])
     return {
